@@ -125,4 +125,27 @@ def run(run, h):
         for b in [base64.b64encode(cid + b"\x00"), base64.b64encode(cid[:31]), b"", b"!" + txt[1:]]:
             rb = h.call("cid_parse", hx(b))
             run.check_monitor("channel_id_text_of_wrong_length_or_alphabet_refused", rb[0] == "error", dict(case, text=b.decode("latin1")))
+        # the Gallina printer / parser (Model/Base64.v) against the implementation: print; parse of the printed text; parse of
+        # encodings of other lengths (0..40 bytes), of a text with a foreign first character and of a text with non-zero
+        # unused bits in front of the padding (all refused by both)
+        def cmp_print(rr, case=case, txt=txt):
+            run.check_corr("corr.C15.channel_id_print", bytes(rr) == txt, dict(case, model=bytes(rr).decode("latin1")))
+        batch.add("r_cid_print %s" % zlist(list(cid)), cmp_print)
+        ln = rng.choice([0, 1, 2, 3, 30, 31, 33, 34, 40])
+        other = rng.randbytes(ln)
+        alphabet = b"ABCDEFGHIJKLMNOPQRSTUVWXYZabcdefghijklmnopqrstuvwxyz0123456789+/"
+        last = alphabet.index(txt[42:43])
+        texts = [("printed", txt), ("other_length_%d" % ln, base64.b64encode(other)), ("foreign_first_character", b"!" + txt[1:]),
+                 ("foreign_first_character_2", bytes([rng.choice([32, 45, 95])]) + txt[1:]),
+                 ("nonzero_unused_bits", txt[:42] + alphabet[last + 1:last + 2] + b"=")]
+        for nm, t in texts:
+            rb = h.call("cid_parse", hx(t))
+
+            def cmp_parse(rr, case=case, rb=rb, nm=nm, t=t):
+                if rr[0] == 1:
+                    ok = rb == ["ok", bytes(rr[1:]).hex()]
+                else:
+                    ok = rb == (["error", "length", str(rr[1])] if rr[0] == 2 else ["error", "decode"])
+                run.check_corr("corr.C15.channel_id_parse", ok, dict(case, text=t.decode("latin1"), kind=nm, model=rr[:2], impl=rb[:2]))
+            batch.add("r_cid_parse %s" % zlist(list(t)), cmp_parse)
     batch.flush()
